@@ -1,7 +1,7 @@
 //! C15: names and numeric ids are identified by the spec's hash, at every entry point.
 use crate::{rng::Rng, sx, sx::Sx, Emit};
 use candid::types::{Label, Type, TypeInner};
-use candid::{CandidType, IDLArgs, IDLValue, TypeEnv};
+use candid::{CandidType, Decode, Encode, IDLArgs, IDLValue, TypeEnv};
 use serde::Deserialize;
 use std::str::FromStr;
 
@@ -74,6 +74,11 @@ fn leb(mut n: u64, out: &mut Vec<u8>) {
 #[derive(CandidType, Deserialize)] struct D9 { _underscore: u8, __double: u8, CamelCase: u8, UPPER: u8 }
 #[derive(CandidType, Deserialize)] struct D10 { #[serde(rename = "\u{1F600}")] smile: u8, #[serde(rename = "")] empty: u8 }
 #[derive(CandidType, Deserialize)] enum D11 { #[serde(rename = "a")] X, #[serde(rename = "b")] Y, #[serde(rename = "A")] Z }
+// non-ASCII renames whose order by id differs from their order under a char-wise (not byte-wise) hash
+#[derive(CandidType, Deserialize, Default)] struct D12 { nom: u8, #[serde(rename = "pr\u{e9}nom")] prenom: u8, #[serde(rename = "\u{e2}ge")] age: u8 }
+#[derive(CandidType, Deserialize, Default)] struct D13 { #[serde(rename = "\u{540d}\u{524d}")] a: u8, #[serde(rename = "\u{5e74}\u{9f62}")] b: u8, #[serde(rename = "\u{4f4f}\u{6240}")] c: u8, nom: u8 }
+#[derive(CandidType, Deserialize)] enum D14 { #[serde(rename = "gr\u{f6}\u{df}e")] A, #[serde(rename = "gross")] B, #[serde(rename = "Stra\u{df}e")] C, #[serde(rename = "caf\u{e9}")] D }
+#[derive(CandidType, Deserialize, Default)] struct D15 { #[serde(rename = "\u{43a}\u{43b}\u{44e}\u{447}")] k: u8, #[serde(rename = "\u{437}\u{43d}\u{430}\u{447}\u{435}\u{43d}\u{438}\u{435}")] v: u8, id: u8, #[serde(rename = "na\u{ef}ve")] n: u8, #[serde(rename = "ma\u{f1}ana")] m: u8 }
 
 pub fn derive_corpus() -> Vec<(Type, Vec<L>)> {
     let n = |s: &str| L::Named(s.to_string());
@@ -90,6 +95,10 @@ pub fn derive_corpus() -> Vec<(Type, Vec<L>)> {
         (D9::ty(), vec![n("_underscore"), n("__double"), n("CamelCase"), n("UPPER")]),
         (D10::ty(), vec![n("\u{1F600}"), n("")]),
         (D11::ty(), vec![n("a"), n("b"), n("A")]),
+        (D12::ty(), vec![n("nom"), n("pr\u{e9}nom"), n("\u{e2}ge")]),
+        (D13::ty(), vec![n("\u{540d}\u{524d}"), n("\u{5e74}\u{9f62}"), n("\u{4f4f}\u{6240}"), n("nom")]),
+        (D14::ty(), vec![n("gr\u{f6}\u{df}e"), n("gross"), n("Stra\u{df}e"), n("caf\u{e9}")]),
+        (D15::ty(), vec![n("\u{43a}\u{43b}\u{44e}\u{447}"), n("\u{437}\u{43d}\u{430}\u{447}\u{435}\u{43d}\u{438}\u{435}"), n("id"), n("na\u{ef}ve"), n("ma\u{f1}ana")]),
     ]
 }
 fn field_ids(t: &Type) -> Option<Vec<u32>> {
@@ -172,6 +181,22 @@ pub fn eval(op: &str, a: &[&str]) -> Option<String> {
                 _ => record! { b: u8::ty(); 98: u8::ty(); c: u8::ty() },
             }});
             match r { Ok(t) => ids_ok(field_ids(&t).unwrap().into_iter()), Err(_) => "(err)".into() }
+        }
+        "p.c15.derive_encode" => {
+            // a derived type's encoding must be accepted by the header parser (ids ascending) and decode to itself
+            let i: usize = a[0].parse().unwrap();
+            fn rt<T: CandidType + for<'a> Deserialize<'a>>(v: T) -> String {
+                let b = match Encode!(&v) { Ok(b) => b, Err(e) => return format!("FAIL encode {}", e) };
+                if let Err(e) = IDLArgs::from_bytes(&b) { return format!("FAIL untyped decode of derived encoding: {}", e); }
+                match Decode!(&b, T) { Ok(w) => if Encode!(&w).ok().as_ref() == Some(&b) { "ok".into() } else { "FAIL re-encoding differs".into() }, Err(e) => format!("FAIL native decode: {}", e) }
+            }
+            match i {
+                0 => rt(D0 { a: 1, b: 2, c: 3 }), 1 => rt(D1 { zebra: 1, apple: 2, mango: 3, kiwi: 4 }), 2 => rt(D2 { r#type: 1, r#fn: 2, normal: 3 }),
+                3 => rt(D3 { a: 1, b: 2, c: 3 }), 4 => rt(D4 { name: 1, id: 2, owner: 3, created_at: 4, controllers: 5, memo: 6 }), 5 => rt(D5(1, 2, 3)),
+                6 => rt(D6::Odd), 7 => rt(D7::B { x: 1, y: 2 }), 8 => rt(D8 { kviccgm: 1, zzz: 2, aaa: 3 }), 9 => rt(D9 { _underscore: 1, __double: 2, CamelCase: 3, UPPER: 4 }),
+                10 => rt(D10 { smile: 1, empty: 2 }), 11 => rt(D11::Z), 12 => rt(D12 { nom: 1, prenom: 2, age: 3 }), 13 => rt(D13 { a: 1, b: 2, c: 3, nom: 4 }),
+                14 => rt(D14::C), _ => rt(D15 { k: 1, v: 2, id: 3, n: 4, m: 5 }),
+            }
         }
         "p.c15.cross" => {
             // value with named fields <-> type with numeric ids, through the wire, both directions
@@ -257,6 +282,7 @@ pub fn generate(thorough: bool, r: &mut Rng, em: &mut Emit) {
     em.case("c15.hash", &[sx::hex(b"")]);
     for (i, (_, names)) in derive_corpus().iter().enumerate() {
         em.case_nt("c15.derive", &[i.to_string(), labels_sx(names)], true);
+        em.case_nt("p.c15.derive_encode", &[i.to_string()], true);
     }
     for i in 0..7 { em.case("c15.macro", &[i.to_string()]); }
     for _ in 0..3000 * scale {
